@@ -14,7 +14,7 @@ from ..faults import Faults, make_callback
 from ..harness import Check
 from ..snap import abs_value
 
-UNIVERSES = ["str", "int", "tuple_keyfn", "kitem", "kitem_typed", "str_typed", "tuple_typed"]
+UNIVERSES = ["str", "int", "tuple_keyfn", "kitem", "kitem_typed", "str_typed", "tuple_typed", "mod_keyfn"]
 
 
 def make_kitem_class():
@@ -169,7 +169,7 @@ class C13(Check):
     LEVEL = "exploration"
     RUNS = {"quick": 3000, "thorough": 60000}
     N_OPS = {"quick": (6, 22), "thorough": (8, 40)}
-    RULE = ("seeded histories over KeyedList for 7 item universes (self-keyed str / int, tuples with an explicit key "
+    RULE = ("seeded histories over KeyedList for 8 item universes (self-keyed str / int, tuples with an explicit key "
             "function, keyed spec items; untyped and KeyedList[T, K]); each operation runs against a plain-list model and, "
             "for universes with a key function, is re-executed with an InjectedFault at every key-function invocation "
             "index. evaluations = operation executions; distinct_nontrivial = distinct (universe, operation, container "
